@@ -2326,9 +2326,8 @@ func WriteBinaryBlocks(mainLabel uint64, lbls Set, op *OutputOp, bounds dvid.Bou
 				inBlock = true
 			} else {
 				hasBackground = true // true if any non-targeted label exists
-				if len(labelIndices) == len(lbls) {
-					break
-				}
+				// no early exit: a label can have more than one entry in the block's label list
+				// (e.g., after ReplaceLabel onto a label already present), see WriteRLEs.
 			}
 		}
 		if inBlock {
